@@ -229,7 +229,7 @@ def audit(pid):
     if rc != 0:
         raise Violation("axiom audit failed to run", out[-4000:], False)
     res = {}
-    for m in re.finditer(r"'([^']+)' (does not depend on any axioms|depends on axioms: \[([^\]]*)\])", out):
+    for m in re.finditer(r"^'(.+)' (does not depend on any axioms|depends on axioms: \[([^\]]*)\])", out, flags=re.M):
         axs = [a.strip() for a in (m.group(3) or "").split(",") if a.strip()]
         res[m.group(1)] = axs
     bad = {k: v for k, v in res.items() if not set(v) <= ALLOWED_AXIOMS}
@@ -453,8 +453,27 @@ def nontrivial(stream, case_line):
     return len(body.strip()) > 0 and body.strip() != "-"
 
 
+def api_inventory():
+    """public functions of the crate (non-test code, written out as `pub fn`) that the harness never
+    names: code that has grown outside the tie.  Informational (goes into the evidence), never an alarm."""
+    names = {}
+    try:
+        for f in sorted(os.listdir(os.path.join(REPO, "src"))):
+            if f.endswith(".rs"):
+                t = open(os.path.join(REPO, "src", f), errors="replace").read()
+                i = t.find("#[cfg(test)]")
+                t = t[:i] if i > 0 else t
+                for m in re.finditer(r"pub fn (\w+)", t):
+                    names.setdefault(m.group(1), set()).add(f)
+        h = "".join(open(os.path.join(HARN, "src", f)).read() for f in os.listdir(os.path.join(HARN, "src")) if f.endswith(".rs"))
+        return sorted("%s (%s)" % (n, ",".join(sorted(fs))) for n, fs in names.items() if not re.search(r"\b%s\b" % re.escape(n), h))
+    except OSError:
+        return []
+
+
 def write_evidence(pid, tier, seed, wall, cov, violations, assumptions):
     os.makedirs(EVID, exist_ok=True)
+    cov["public_fns_never_named_by_the_harness"] = api_inventory()
     ev = dict(property_id=pid, tier=tier, seed=seed, level="proof", coverage=cov,
               assumptions=assumptions, wall_s=round(wall, 2), violations=violations)
     tmp = os.path.join(EVID, pid + ".json.tmp")
